@@ -1,19 +1,44 @@
 import ScVerif.Base.Line
 import ScVerif.C02.Facts
 /-!
-Driver handler for C02.  Messages are integers (`wrapperspb.Int64Value` on the Go side, empty = 0).
+Driver handler for C02.  Messages are pairs of integers `a.b` (`durationpb.Duration{seconds, nanos}` on the
+Go side, the empty message is `0.0`), so that update masks can select one field and leave the other.
 
-Request:  `run <fixed:0|1> <init> <progs> <sched>`
-* init   `-` or `id:val,id:val`
+Request:  `run <fixed:0|1> <clock> <cands> <init> <progs> <sched>`
+* clock  `t` (instant = number of the step, the constructor read 0) | `f` (frozen at 0) | `c` (coarse: step / 3)
+* cands  `-` or comma separated numbers: the `n`-th `rng.Read` yields candidate `100 + 10 * cands[n % len] + i`
+         on try `i` (an empty script: `cands[n] = n`)
+* init   `-` or `id:a.b,id:a.b`
 * progs  threads separated by `|`, operations by `;` (an empty thread is `-`); an operation is
-         `u/<id>/<V|C>/<expectAbsent>/<createIfAbsent>/<expect>/<check>/<f>` or `d/<id>/<allowMissing>/<expect>/<check>`
-         expect `-` or an integer; check `n` | `eq<k>` | `ne<k>` (fails with OutOfRange); f `s<k>` (set) | `a<k>` (add)
+         `u/<id|g>/<V|C>/<expectAbsent>/<createIfAbsent>/<expect>/<check>/<f>/<mask>/<writeTime>` or
+         `d/<id>/<allowMissing>/<expect>/<check>`
+         id `g` = empty id + WithGenIDIfAbsent; expect `-` or `a.b`; check `n` | `eq<k>` | `ne<k>` on field a
+         (fails with OutOfRange); f `s<a>.<b>` (write a.b) | `a<k>` | `b<k>` (interceptor: field += k);
+         mask `-` (none) | `a` | `b` | `ab`; writeTime `-` or a number
 * sched  `-` or comma separated thread ids; one entry = one atomic step of that thread
 
-Answer: `T0=[r,r,...]|T1=[...]|store=id:val,...|log=<n>|pc=<per thread i/c/m/d>` with r = `ok:<v>` | `ok:nil` | `err:<Code>`.
+Answer: `T0=[r,r,...]|T1=[...]|store=id:a.b@t,...|log=<n>|pc=<per thread i/c/m/d>|rng=<n>` with
+r = `ok:<a.b>` | `ok:<a.b>#<generated id>` | `ok:nil` | `err:<Code>`, `@t` the stored change time.
 -/
 namespace ScVerif.C02
 open ScVerif.Line
+
+structure P where
+  a : Int
+  b : Int
+  deriving DecidableEq, Repr
+
+instance instMsgP : Msg P := ⟨⟨0, 0⟩⟩
+
+def showP (p : P) : String := s!"{p.a}.{p.b}"
+
+def parseP? (s : String) : Option P :=
+  match s.splitOn "." with
+  | [a, b] => do
+    let a ← parseInt? a
+    let b ← parseInt? b
+    pure ⟨a, b⟩
+  | _ => none
 
 def showErr : Err → String
   | .aborted => "Aborted"
@@ -24,84 +49,112 @@ def showErr : Err → String
   | .other 11 => "OutOfRange"
   | .other n => s!"Other{n}"
 
-def showRes : Res Int → String
-  | .ok (some v) => s!"ok:{v}"
+def showRes (op : Op P) (res : Res P) : String :=
+  match res with
+  | .ok (some v) => if opGen op then s!"ok:{showP v}#{opId op}" else s!"ok:{showP v}"
   | .ok none => "ok:nil"
   | .error e => s!"err:{showErr e}"
 
-def parseOptInt? (s : String) : Option (Option Int) :=
-  if s = "-" then some none else (parseInt? s).map some
+def parseOptP? (s : String) : Option (Option P) :=
+  if s = "-" then some none else (parseP? s).map some
 
-def parseCheck? (s : String) : Option (Option Int → Option Err) :=
+def parseOptNat? (s : String) : Option (Option Nat) :=
+  if s = "-" then some none else (parseNat? s).map some
+
+def parseCheck? (s : String) : Option (Option P → Option Err) :=
   if s = "n" then some (fun _ => none)
   else if s.startsWith "eq" then
-    (parseInt? (s.drop 2).toString).map (fun k => fun old => if old = some k then none else some (.other 11))
+    (parseInt? (s.drop 2).toString).map (fun k => fun old => if old.map (·.a) = some k then none else some (.other 11))
   else if s.startsWith "ne" then
-    (parseInt? (s.drop 2).toString).map (fun k => fun old => if old = some k then some (.other 11) else none)
+    (parseInt? (s.drop 2).toString).map (fun k => fun old => if old.map (·.a) = some k then some (.other 11) else none)
   else none
 
-def parseF? (s : String) : Option (Option Int → Int) :=
-  if s.startsWith "s" then (parseInt? (s.drop 1).toString).map (fun k => fun _ => k)
-  else if s.startsWith "a" then (parseInt? (s.drop 1).toString).map (fun k => fun old => old.getD 0 + k)
+/-- the message handed to `Set`/`Update` after `interceptBefore` ran, as a function of the old value -/
+def parseWritten? (s : String) : Option (P → P) :=
+  if s.startsWith "s" then (parseP? (s.drop 1).toString).map (fun v => fun _ => v)
+  else if s.startsWith "a" then (parseInt? (s.drop 1).toString).map (fun k => fun o => ⟨o.a + k, o.b⟩)
+  else if s.startsWith "b" then (parseInt? (s.drop 1).toString).map (fun k => fun o => ⟨o.a, o.b + k⟩)
   else none
 
-def parseOp? (s : String) : Option (Op Int) :=
+/-- `FieldUpdater.Merge` under the update mask: masked fields come from the written message, the others stay -/
+def parseMask? (s : String) : Option (P → P → P) :=
+  if s = "-" || s = "ab" then some (fun _ v => v)
+  else if s = "a" then some (fun o v => ⟨v.a, o.b⟩)
+  else if s = "b" then some (fun o v => ⟨o.a, v.b⟩)
+  else none
+
+def parseOp? (s : String) : Option (Op P) :=
   match s.splitOn "/" with
-  | ["u", id, vc, ea, cia, ex, ck, f] => do
-    let id ← parseNat? id
+  | ["u", id, vc, ea, cia, ex, ck, f, mask, wt] => do
+    let (id, gen) ← (if id = "g" then some (0, true) else (parseNat? id).map (·, false))
     let isV ← (if vc = "V" then some true else if vc = "C" then some false else none)
     let ea ← parseBool? ea
     let cia ← parseBool? cia
-    let ex ← parseOptInt? ex
+    let ex ← parseOptP? ex
     let ck ← parseCheck? ck
-    let f ← parseF? f
-    pure (.upd ⟨id, isV, ea, cia, ex, ck, f⟩)
+    let w ← parseWritten? f
+    let m ← parseMask? mask
+    let wt ← parseOptNat? wt
+    pure (.upd { id := id, isValue := isV, expectAbsent := ea, createIfAbsent := cia, expect := ex, check := ck,
+                 f := fun old => let o := old.getD ⟨0, 0⟩; m o (w o), writeTime := wt, genId := gen })
   | ["d", id, am, ex, ck] => do
     let id ← parseNat? id
     let am ← parseBool? am
-    let ex ← parseOptInt? ex
+    let ex ← parseOptP? ex
     let ck ← parseCheck? ck
     pure (.del ⟨id, am, ex, fun b => ck (some b)⟩)
   | _ => none
 
-def parseProg? (s : String) : Option (List (Op Int)) :=
+def parseProg? (s : String) : Option (List (Op P)) :=
   if s = "-" || s = "" then some [] else (s.splitOn ";").mapM parseOp?
 
-def parseInit? (s : String) : Option (List (Nat × Int)) :=
+def parseInit? (s : String) : Option (List (Nat × P)) :=
   if s = "-" || s = "" then some []
   else (s.splitOn ",").mapM (fun kv =>
     match kv.splitOn ":" with
     | [k, v] => do
       let k ← parseNat? k
-      let v ← parseInt? v
+      let v ← parseP? v
       pure (k, v)
     | _ => none)
 
-def parseSched? (s : String) : Option (List Nat) :=
+def parseNats? (s : String) : Option (List Nat) :=
   if s = "-" || s = "" then some [] else (s.splitOn ",").mapM parseNat?
 
-def showPc : Pc Int → String
+def parseClock? (s : String) : Option (Nat → Nat) :=
+  if s = "t" then some (fun k => k)
+  else if s = "f" then some (fun _ => 0)
+  else if s = "c" then some (fun k => k / 3)
+  else none
+
+def candOf (script : List Nat) (n i : Nat) : Nat :=
+  100 + 10 * (if script.isEmpty then n else script.getD (n % script.length) 0) + i
+
+def showPc : Pc P → String
   | .idle => "i"
   | .uChange .. => "c"
   | .uCommit .. => "m"
   | .dTry .. => "d"
 
-/-- ids the harness uses: 0..9 -/
-def showStore (s : SStore Int) : String :=
-  ",".intercalate ((List.range 10).filterMap (fun i => (s i).map (fun v => s!"{i}:{v}")))
+/-- ids the harness uses: 0..9 given, 100.. generated -/
+def showStore (c : Config P) : String :=
+  ",".intercalate ((List.range 400).filterMap (fun i =>
+    (absS c.store i).map (fun v => s!"{i}:{showP v}@{c.stamp i}")))
 
 def handle (toks : List String) : String :=
   match toks with
-  | ["run", fixed, init, progs, sched] =>
-    match parseBool? fixed, parseInit? init, (progs.splitOn "|").mapM parseProg?, parseSched? sched with
-    | some fixed, some init, some progs, some sched =>
-      let s₀ : SStore Int := fun i => (init.find? (fun kv => kv.1 == i)).map (·.2)
-      let c := run fixed (initCfg s₀ (fun t => progs.getD t [])) sched
+  | ["run", fixed, clock, cands, init, progs, sched] =>
+    match parseBool? fixed, parseClock? clock, parseNats? cands, parseInit? init,
+        (progs.splitOn "|").mapM parseProg?, parseNats? sched with
+    | some fixed, some clock, some cands, some init, some progs, some sched =>
+      let s₀ : SStore P := fun i => (init.find? (fun kv => kv.1 == i)).map (·.2)
+      let env : Env := ⟨clock, candOf cands⟩
+      let c := run fixed env (initCfg s₀ (fun t => progs.getD t [])) sched
       let ths := (List.range progs.length).map (fun t =>
-        s!"T{t}=[" ++ ",".intercalate ((c.threads t).done.map (fun r => showRes r.res)) ++ "]")
-      "|".intercalate ths ++ s!"|store={showStore (absS c.store)}|log={c.log.length}|pc=" ++
-        "".intercalate ((List.range progs.length).map (fun t => showPc (c.threads t).pc))
-    | _, _, _, _ => "!bad-op"
+        s!"T{t}=[" ++ ",".intercalate ((c.threads t).done.map (fun r => showRes r.op r.res)) ++ "]")
+      "|".intercalate ths ++ s!"|store={showStore c}|log={c.log.length}|pc=" ++
+        "".intercalate ((List.range progs.length).map (fun t => showPc (c.threads t).pc)) ++ s!"|rng={c.rng}"
+    | _, _, _, _, _, _ => "!bad-op"
   | _ => "!bad-op"
 
 end ScVerif.C02
